@@ -573,6 +573,20 @@ def nth_loop_brace(body: str, k: int) -> int:
     return ob
 
 
+def count_loops(body: str) -> int:
+    return len(re.findall(r'\b(for|while|loop)\b', code_mask(body)))
+
+
+def loops_gone(body: str, spec: dict, fired: dict) -> bool:
+    """The contract annotates loops but the function (after the rewrite rules) no longer has ANY: the invariants have nothing to
+    attach to and are dropped; the loop-free body is then checked against the same contract, which needs no invariant.
+    (A different non-zero number of loops stays an extraction error: the invariants cannot be placed.)"""
+    if (spec.get('loops') or spec.get('loop_tails')) and count_loops(body) == 0:
+        fired['loops-gone:annotations-dropped'] = len(spec.get('loops', {})) + len(spec.get('loop_tails', {}))
+        return True
+    return False
+
+
 def extract_fn(repo: str, spec: dict):
     """spec: file, impl (regex or ''), fn, nth, rules [..], ret, contract (text), proof (text),
     loops {k: text}, attrs (text placed before fn), sig_sub [(regex, repl)], body_sub (disallowed)
@@ -590,9 +604,7 @@ def extract_fn(repo: str, spec: dict):
         body, n = rule_T8(body, var, fields)
         fired['T8:' + var] = n
     for (callees, arg) in spec.get('ghost_args', []):
-        body, n = rule_T6(body, callees, arg)
-        if n == 0:
-            raise ExtractError('%s::%s: T6: none of the calls %s found' % (spec['file'], spec['fn'], callees))
+        body, n = rule_T6(body, callees, arg)      # n == 0: the function no longer makes any of these calls; the contract decides
         fired['T6:' + ','.join(callees)] = n
     for k in sorted(spec.get('closures', {}), reverse=True):
         body, n = rule_T7(body, int(k), spec['closures'][k])
@@ -610,12 +622,13 @@ def extract_fn(repo: str, spec: dict):
             raise ExtractError('%s::%s: signature substitution /%s/ did not apply' % (spec['file'], spec['fn'], pat))
         fired['S:' + pat] = n
     sig, where = name_return(sig.rstrip(), spec.get('ret', 'r'))
-    for k in sorted(spec.get('loop_tails', {}), reverse=True):
+    gone = loops_gone(body, spec, fired)
+    for k in sorted(spec.get('loop_tails', {}) if not gone else {}, reverse=True):
         ob = nth_loop_brace(body, int(k))
         cb = match_brace(code_mask(body), ob)
         body = body[:cb] + '    proof {\n' + spec['loop_tails'][k].rstrip() + '\n        }\n    ' + body[cb:]
     # loops first (offsets in body), from last to first so offsets stay valid
-    for k in sorted(spec.get('loops', {}), reverse=True):
+    for k in sorted(spec.get('loops', {}) if not gone else {}, reverse=True):
         ob = nth_loop_brace(body, int(k))
         body = body[:ob] + '\n' + spec['loops'][k].rstrip() + '\n        ' + body[ob:]
     if spec.get('proof'):
@@ -678,6 +691,71 @@ def extract_closure_fn(repo: str, spec: dict):
     start = loc['body_open'] + m.start()
     info = dict(file=spec['file'], impl=loc['header'], fn='%s::<closure %s>' % (spec['fn'], spec['let']),
                 lines=[src.line_of(start), src.line_of(loc['body_open'] + end)], sha256=sha256(raw), rules_fired=dict(fired, X1c='closure body -> function'))
+    return out, info
+
+
+def extract_loop_body_fn(repo: str, spec: dict):
+    """The body of `thread::spawn(move || { while let Ok(VAR) = receiver.recv() { BODY } })` inside function spec['fn']
+    becomes a function (one call = one iteration): the template supplies the signature, the extractor BODY verbatim.
+    The only rewriting: a `break;` that leaves the loop (the thread ends) is written `return;` (the step ends)."""
+    src = Source(repo + '/' + spec['file'])
+    loc = src.find_fn(spec.get('impl') or None, spec['fn'], int(spec.get('nth', 0)))
+    seg_mask = src.mask[loc['body_open']:loc['end']]
+    m = re.search(r'thread::spawn\s*\(\s*move\s*\|\|\s*\{', seg_mask)
+    if not m:
+        raise ExtractError('%s::%s: thread::spawn(move || {..}) not found' % (spec['file'], spec['fn']))
+    w = re.search(r'while\s+let\s+Ok\((\w+)\)\s*=\s*receiver\.recv\(\)\s*\{', seg_mask[m.end():])
+    if not w:
+        raise ExtractError('%s::%s: `while let Ok(x) = receiver.recv()` not found' % (spec['file'], spec['fn']))
+    if w.group(1) != spec.get('var'):
+        raise ExtractError('%s::%s: loop variable is `%s`, the contract was written for `%s`' % (spec['file'], spec['fn'], w.group(1), spec.get('var')))
+    ob = loc['body_open'] + m.end() + w.end() - 1
+    cb = match_brace(src.mask, ob)
+    raw = src.text[ob:cb + 1]
+    body = raw
+    fired = {}
+    bm = code_mask(body)
+    # `break` -> `return` (only breaks that are not inside a nested loop of BODY)
+    out, last, n = '', 0, 0
+    for b in re.finditer(r'\bbreak\s*;', bm):
+        # nested loop check: is there an enclosing for/while/loop inside body before this position whose block contains it?
+        nested = False
+        for lp in re.finditer(r'\b(for|while|loop)\b', bm[:b.start()]):
+            lob = first_open_brace(bm, lp.end())
+            if lob >= 0 and lob < b.start() and match_brace(bm, lob) > b.start():
+                nested = True
+        if nested:
+            continue
+        out += body[last:b.start()] + 'return;'
+        last = b.end()
+        n += 1
+    body = out + body[last:]
+    fired['break->return'] = n
+    for r in spec.get('rules', []):
+        body, k = RULES[r](body)
+        fired[r] = k
+    for (callees, arg) in spec.get('ghost_args', []):
+        body, k = rule_T6(body, callees, arg)
+        fired['T6:' + ','.join(callees)] = k
+    gone = loops_gone(body, spec, fired)
+    for kk in sorted(spec.get('loop_tails', {}) if not gone else {}, reverse=True):
+        lob = nth_loop_brace(body, int(kk))
+        lcb = match_brace(code_mask(body), lob)
+        body = body[:lcb] + '    proof {\n' + spec['loop_tails'][kk].rstrip() + '\n        }\n    ' + body[lcb:]
+    for kk in sorted(spec.get('loops', {}) if not gone else {}, reverse=True):
+        lob = nth_loop_brace(body, int(kk))
+        body = body[:lob] + '\n' + spec['loops'][kk].rstrip() + '\n        ' + body[lob:]
+    if spec.get('proof'):
+        body = '{\n        proof {\n' + spec['proof'].rstrip() + '\n        }' + body[1:]
+    out = ''
+    if spec.get('attrs'):
+        out += spec['attrs'].rstrip() + '\n'
+    out += spec['signature'].rstrip()
+    if spec.get('contract'):
+        out += '\n' + spec['contract'].rstrip() + '\n    '
+    out += body + '\n'
+    info = dict(file=spec['file'], impl=loc['header'], fn='%s::<loop body>' % spec['fn'],
+                lines=[src.line_of(ob), src.line_of(cb)], sha256=sha256(raw), rules_fired=dict(fired, X1='thread loop body -> function'))
     return out, info
 
 
